@@ -797,6 +797,12 @@ func (j *judgeCtx) checkCancel() {
 			}
 		}
 	}
+	// Close() called by the worker function on its own (executing) job
+	for _, s := range wd.subs {
+		if s.CloseInFnSeq != 0 && s.CloseInFnErr != ErrJobProcessing.Error() {
+			j.add("C10.b", s.CloseInFnSeq, "Close() called on job %d from inside its worker function returned %q, not ErrJobProcessing", s.N, s.CloseInFnErr)
+		}
+	}
 	// C10.f: queue close
 	for _, q := range wd.qs {
 		if q.closeRet == 0 {
